@@ -169,48 +169,80 @@ pub fn graph_case(rep: &mut Rep, n: usize, adj: u32, constructs: &[usize], what:
 pub fn run(ctx: &mut Ctx) {
     // ---- name-collision configurations ------------------------------------------------------------
     // identifier position: type name vs variable vs program
-    ctx.stage("resolve-identifier", 2 * 2 * 2 * 3, false, |idx, _rng, rep| {
-        let is_type = idx & 1 != 0;
-        let var_bound = idx & 2 != 0;
-        let prog_stored = idx & 4 != 0;
-        let pos = (idx >> 3) as usize; // 0 bare, 1 operand, 2 inside a macro body
-        let name = if is_type { "int" } else { "foo" };
-        let src = match pos {
-            0 => name.to_string(),
-            1 => format!("[{}][0]", name),
-            _ => format!("[1].map(x, {})[0]", name),
+    // every type name (and one plain name) x variable bound? x program stored? x every position an identifier can
+    // stand in. Oracle: the same source with the identifier replaced by a fresh variable `vv` bound to the value
+    // the resolution order prescribes (type value > variable > stored program evaluated under the same bindings).
+    const ID_NAMES: [&str; 13] = ["int", "uint", "double", "float", "bool", "string", "bytes", "type", "timestamp", "duration", "dyn", "null_type", "foo"];
+    const POSITIONS: [&str; 22] = [
+        "@", "[@][0]", "[1].map(x, @)[0]", "same(@)", "type(@)", "dyn(@)", "f'{@}'", "f'a{@}b{@}'", "[@, @].size() == 2 ? @ : 0", "{'k': @}.k",
+        "{'k': @}['k']", "@ == @", "[@].contains(@)", "'x'.same(@)", "same(same(@))", "[@].map(y, same(y))[0]", "[1].map(y, same(@))[0]",
+        "coalesce(@)", "coalesce(null, @)", "true ? @ : 1", "[[@]][0][0]", "same([@])[0]",
+    ];
+    let np = POSITIONS.len() as u64;
+    ctx.stage("resolve-identifier", ID_NAMES.len() as u64 * 4 * np, false, |idx, _rng, rep| {
+        let pos = (idx % np) as usize;
+        let var_bound = (idx / np) & 1 != 0;
+        let prog_stored = (idx / np) & 2 != 0;
+        let name = ID_NAMES[(idx / np / 4) as usize];
+        let is_type = name != "foo";
+        let src = POSITIONS[pos].replace('@', name);
+        let ref_src = POSITIONS[pos].replace('@', "vv");
+        let same = |this: CelValue, mut args: Vec<CelValue>| -> CelValue {
+            let _ = this;
+            args.pop().unwrap_or(CelValue::from_null())
         };
         let mut c = CelContext::new();
-        c.add_program_str("main", &src).unwrap();
+        let mut cr = CelContext::new();
+        if c.add_program_str("main", &src).is_err() || cr.add_program_str("main", &ref_src).is_err() {
+            rep.count("resolution_position_rejected");
+            return;
+        }
         if prog_stored {
             c.add_program_str(name, "other + 100").unwrap();
         }
         let mut b = BindContext::new();
         b.bind_param("other", 1.into());
+        b.bind_func("same", &same);
         if var_bound {
             b.bind_param(name, 7.into());
         }
         let out = mon::exec_prog(&mut c, "main", &b);
         rep.eval();
         rep.count("resolution_cases");
-        let want: Result<CelValue, ()> = if is_type {
-            Ok(CelValue::from_type("int"))
-        } else if var_bound {
-            Ok(7.into())
-        } else if prog_stored {
-            Ok(101.into()) // evaluated under the same bindings
+        // the type value is what the bare type name denotes in a context without any binding
+        let type_value = if is_type {
+            match mon::run1(name, &[]) {
+                Out::Val(v) => Some(v),
+                _ => None,
+            }
         } else {
-            Err(())
+            None
         };
-        let ok = match (&want, &out) {
-            (Ok(v), Out::Val(o)) => canon(v) == canon(o),
-            (Err(()), Out::Err(CelError::Binding { .. })) => true,
-            _ => false,
+        let resolved: Option<CelValue> = if type_value.is_some() {
+            type_value
+        } else if var_bound {
+            Some(7.into())
+        } else if prog_stored {
+            Some(101.into()) // evaluated under the same bindings
+        } else {
+            None
+        };
+        let ok = match &resolved {
+            Some(v) => {
+                let mut br = BindContext::new();
+                br.bind_param("other", 1.into());
+                br.bind_func("same", &same);
+                br.bind_param("vv", v.clone());
+                let want = mon::exec_prog(&mut cr, "main", &br);
+                want.canon_anyerr() == out.canon_anyerr()
+            }
+            // unresolvable: an error, except where a construct absorbs absence
+            None => out.is_err() || POSITIONS[pos].contains("coalesce"),
         };
         if !ok {
             rep.viol(
-                &format!("resolve|identifier|type={}|var={}|prog={}|pos={}", is_type, var_bound, prog_stored, pos),
-                &format!("`{}` with type-name={}, variable bound={}, program stored={}: expected {:?}, got {}", src, is_type, var_bound, prog_stored, want.as_ref().map(canon), out.show()),
+                &format!("resolve|identifier|type={}|var={}|prog={}|pos={}", is_type, var_bound, prog_stored, POSITIONS[pos]),
+                &format!("`{}` with type-name={}, variable bound={}, program stored={}: expected what `{}` gives with vv = {:?}, got {}", src, is_type, var_bound, prog_stored, ref_src, resolved.as_ref().map(canon), out.show()),
                 json!({"source": src}),
             );
         }
